@@ -211,6 +211,14 @@ class BehavioralRTLIRTypeCheckVisitorL1( bir.BehavioralRTLIRNodeVisitor ):
 
     # At L1 it's always signal assignment
     is_rhs_reinterpretable = not node.value._is_explicit
+    # An integer that needs more bits than the target would be silently
+    # truncated by the enforcer below (and raises in simulation)
+    if is_rhs_reinterpretable and isinstance( lhs_type, rdt.Vector ) and \
+       isinstance( rhs_type, rdt.Vector ) and \
+       rhs_type.get_length() > lhs_type.get_length():
+      raise PyMTLTypeError( s.blk, node.ast,
+        f'The LHS of the assignment has {lhs_type.get_length()} bits but '
+        f'the integer on the RHS requires more bits ({rhs_type.get_length()})!' )
     if is_rhs_reinterpretable and ((not lhs_type(rhs_type)) or (rhs_type != lhs_type)):
       s.enforcer.enter( s.blk, target.Type, node.value )
 
